@@ -196,9 +196,14 @@ func (p *Prelude) buildQuery(o *Obligation, wantModel bool, sizeCap int) string 
 	goal := o.Goal
 	terms = append(terms, goal)
 
+	// extensionality instances for Str equalities in lines mode
+	var extra []*Term
+	if mode == "lines" {
+		extra = linesExtInstances([]*Term{goal})
+	}
 	// relevance closure over spec functions and axioms
 	used := map[string]bool{}
-	for _, t := range terms {
+	for _, t := range append(append([]*Term(nil), terms...), extra...) {
 		for s := range termSyms(t) {
 			used[s] = true
 		}
@@ -273,12 +278,7 @@ func (p *Prelude) buildQuery(o *Obligation, wantModel bool, sizeCap int) string 
 		allTerms = append(allTerms, a.Term)
 	}
 
-	// extensionality instances for Str equalities in lines mode
-	var extra []*Term
-	if mode == "lines" {
-		extra = linesExtInstances([]*Term{goal})
-		allTerms = append(allTerms, extra...)
-	}
+	allTerms = append(allTerms, extra...)
 
 	// declarations --------------------------------------------------------
 	var hdr strings.Builder
@@ -289,6 +289,7 @@ func (p *Prelude) buildQuery(o *Obligation, wantModel bool, sizeCap int) string 
 	if wantModel {
 		hdr.WriteString("(set-option :produce-models true)\n")
 	}
+	hdr.WriteString("(set-logic ALL)\n")
 	if mode != "str" {
 		hdr.WriteString("(declare-sort Str 0)\n")
 	}
